@@ -109,6 +109,23 @@ func checkC12(c *Ctx) error {
 	return nil
 }
 
+// cbDecoy: two methods with one ordinary parameter and an omitted trailing one (options map / helper context)
+type cbDecoy struct{ bad *string }
+
+func (d cbDecoy) Tag(x interface{}, opts map[string]interface{}) string {
+	if opts == nil || len(opts) != 0 {
+		*d.bad = fmt.Sprintf("a decoy method's omitted options map arrived as %#v", opts)
+	}
+	return ""
+}
+
+func (d cbDecoy) Wrap(x interface{}, help plush.HelperContext) string {
+	if help.Context == nil {
+		*d.bad = "a decoy method's omitted helper context arrived empty"
+	}
+	return ""
+}
+
 func cbArgLiteral(kind string, i int) (src string, val interface{}) {
 	switch kind {
 	case "str":
@@ -227,6 +244,36 @@ func c12Run(c *Ctx, raw json.RawMessage) {
 	ctx.Set("h", fn.Interface())
 	ctx.Set("ss", []string{"u", "v"})
 	ctx.Set("np", (*vRec)(nil))
+	// decoys: two more functions made the same way, with as many parameters as the call under test has arguments
+	// plus one omitted trailing parameter -- an options map for the one, the helper context for the other (and two
+	// METHODS of one receiver with the same two shapes): how the omitted parameter of one function is filled must not
+	// depend on what another function wanted at the same position
+	decoyIn := []reflect.Type{}
+	zeros := []string{}
+	for range cc.Args {
+		decoyIn = append(decoyIn, tIface)
+		zeros = append(zeros, "0")
+	}
+	decoyBad := ""
+	decoy := func(last reflect.Type) interface{} {
+		return reflect.MakeFunc(reflect.FuncOf(append(append([]reflect.Type{}, decoyIn...), last), []reflect.Type{tString}, false), func(args []reflect.Value) []reflect.Value {
+			v := args[len(args)-1].Interface()
+			switch t := v.(type) {
+			case map[string]interface{}:
+				if t == nil || len(t) != 0 {
+					decoyBad = fmt.Sprintf("a decoy's omitted options map arrived as %#v", v)
+				}
+			case plush.HelperContext:
+				if t.Context == nil {
+					decoyBad = "a decoy's omitted helper context arrived empty"
+				}
+			}
+			return []reflect.Value{reflect.ValueOf("")}
+		}).Interface()
+	}
+	ctx.Set("d1", decoy(tMap))
+	ctx.Set("d2", decoy(tHCS))
+	ctx.Set("dm", cbDecoy{bad: &decoyBad})
 	parts := []string{}
 	vals := []interface{}{}
 	for i, a := range cc.Args {
@@ -235,7 +282,8 @@ func c12Run(c *Ctx, raw json.RawMessage) {
 		vals = append(vals, v)
 	}
 	// (an earlier Go call with an argument in the same render: nothing of it may reach the call under test)
-	src := "<% vcount(0, 0, 0, 0, 0, 0) %><% id(0) %><%= h(" + strings.Join(parts, ", ") + ")"
+	dz := strings.Join(zeros, ", ")
+	src := "<% vcount(0, 0, 0, 0, 0, 0) %><% id(0) %><% d1(" + dz + ") %><% d2(" + dz + ") %><% dm.Tag(0) %><% dm.Wrap(0) %><% dm.Tag(0) %><%= h(" + strings.Join(parts, ", ") + ")"
 	if cc.Blk {
 		src += " { %>B<% }"
 	}
@@ -266,6 +314,10 @@ func c12Run(c *Ctx, raw json.RawMessage) {
 			cls = "variadic"
 		}
 		c.Fail(kind+":"+cls, sigDesc+": "+msg, cas)
+	}
+	if decoyBad != "" {
+		fail("decoy", decoyBad)
+		return
 	}
 	if o.Panic != "" || o.Hang {
 		c.Drift("crash") // totality is C04's verdict
